@@ -940,7 +940,9 @@ fn c10_server_case(case: &Value, env: &mut Env, _shard: usize, rep: &mut Report)
                     let (count, bytes) = conn.t.verif_pending_chunks();
                     max_count = max_count.max(count);
                     max_bytes = max_bytes.max(bytes);
-                    // bytes held beyond the per-chunk headers, the most lenient reading of "bytes of the message"
+                    // "never buffers more bytes than the maximum message size" is read literally: what the
+                    // transport holds for the incomplete message, chunk headers included (they are memory too, and
+                    // with empty bodies they are all there is)
                     let body_bytes = bytes.saturating_sub(count * SYM_OVERHEAD);
                     if mcc > 0 && count > mcc && !reported_count {
                         reported_count = true;
@@ -950,7 +952,7 @@ fn c10_server_case(case: &Value, env: &mut Env, _shard: usize, rep: &mut Report)
                             json!(format!("after chunk #{} ({}) the transport holds {} pending chunks, max_chunk_count is {}, no error was returned", i, flavour, count, mcc)),
                         ));
                     }
-                    if mms > 0 && body_bytes > mms && !reported_bytes {
+                    if mms > 0 && bytes > mms && !reported_bytes {
                         reported_bytes = true;
                         events.push((
                             "violation".into(),
